@@ -408,7 +408,7 @@ func lockHeldAt(p *Prog, fn *ssa.Function, at ssa.Instruction, lock, unlock stri
 			return false
 		}
 		if fa, ok := call.Common().Args[0].(*ssa.FieldAddr); ok {
-			return fa.X == ssa.Value(fn.Params[0])
+			return isReceiver(fn, fa.X)
 		}
 		return false
 	}
@@ -530,4 +530,25 @@ func ruleC18SharedInstance(c *Ctx) {
 			c.Check(leak == "", "C18.SHAREDINSTANCE", name, p.Pos(g.Pos()), "the mutable object is never handed out", "a single package-level instance of a mutable type (method "+via+" writes into it) is "+leak+": concurrent callers mutate the same object")
 		}
 	}
+}
+
+// isReceiver: v is the method's receiver, directly or re-loaded from the cell it was spilled to
+// (receivers captured by a closure live in memory).
+func isReceiver(fn *ssa.Function, v ssa.Value) bool {
+	if len(fn.Params) == 0 {
+		return false
+	}
+	if v == ssa.Value(fn.Params[0]) {
+		return true
+	}
+	if u, ok := v.(*ssa.UnOp); ok {
+		if al, ok := u.X.(*ssa.Alloc); ok {
+			for _, r := range *al.Referrers() {
+				if st, ok := r.(*ssa.Store); ok && st.Addr == ssa.Value(al) && st.Val == ssa.Value(fn.Params[0]) {
+					return true
+				}
+			}
+		}
+	}
+	return false
 }
